@@ -14,8 +14,38 @@ use ckc_rs::{CKCNumber, CardNumber, CardRank, CardSuit, PokerCard};
 use std::time::Instant;
 use strum::IntoEnumIterator;
 
+/// The harness's own numbering of the enumeration members, by variant identity (ACE = 14 .. TWO = 2, BLANK = 0;
+/// SPADES = 4 .. CLUBS = 1, BLANK = 0). Deliberately NOT `member as u8`: no property says anything about the
+/// discriminants, so renumbering them must not change any verdict.
+pub fn rank_no(r: CardRank) -> u8 {
+    match r {
+        CardRank::ACE => 14,
+        CardRank::KING => 13,
+        CardRank::QUEEN => 12,
+        CardRank::JACK => 11,
+        CardRank::TEN => 10,
+        CardRank::NINE => 9,
+        CardRank::EIGHT => 8,
+        CardRank::SEVEN => 7,
+        CardRank::SIX => 6,
+        CardRank::FIVE => 5,
+        CardRank::FOUR => 4,
+        CardRank::THREE => 3,
+        CardRank::TWO => 2,
+        CardRank::BLANK => 0,
+    }
+}
+pub fn suit_no(s: CardSuit) -> u8 {
+    match s {
+        CardSuit::SPADES => 4,
+        CardSuit::HEARTS => 3,
+        CardSuit::DIAMONDS => 2,
+        CardSuit::CLUBS => 1,
+        CardSuit::BLANK => 0,
+    }
+}
 fn rank_idx(r: CardRank) -> Option<u8> {
-    let v = r as u8; // ACE = 14 .. TWO = 2, BLANK = 0 (public discriminants)
+    let v = rank_no(r);
     if (2..=14).contains(&v) {
         Some(v - 2)
     } else {
@@ -23,7 +53,7 @@ fn rank_idx(r: CardRank) -> Option<u8> {
     }
 }
 fn suit_idx(s: CardSuit) -> Option<u8> {
-    let v = s as u8; // SPADES = 4 .. CLUBS = 1, BLANK = 0
+    let v = suit_no(s);
     if (1..=4).contains(&v) {
         Some(v - 1)
     } else {
@@ -122,8 +152,8 @@ pub fn judge(case: &Case) -> Verdict {
     match case.kind.as_str() {
         "create" => {
             let (rd, sd) = (case.words.first().copied().unwrap_or(99), case.words.get(1).copied().unwrap_or(99));
-            let r = CardRank::iter().find(|r| *r as u64 == rd);
-            let s = CardSuit::iter().find(|s| *s as u64 == sd);
+            let r = CardRank::iter().find(|r| rank_no(*r) as u64 == rd);
+            let s = CardSuit::iter().find(|s| suit_no(*s) as u64 == sd);
             let (r, s) = match (r, s) {
                 (Some(r), Some(s)) => (r, s),
                 _ => return Verdict::NotJudged("no such enumeration member".into()),
@@ -356,7 +386,7 @@ pub fn run(_ctx: &Ctx, rep: &mut Report) {
         let mut items = Vec::new();
         for r in CardRank::iter() {
             for s in CardSuit::iter() {
-                items.push(Case::new("create", &[r as u64, s as u64]));
+                items.push(Case::new("create", &[rank_no(r) as u64, suit_no(s) as u64]));
             }
         }
         for i in (0..53).step_by(3) {
